@@ -1246,10 +1246,16 @@ def fifo_power_programs(api, rng, n):
     out = []
     for k in range(n):
         calls = []
+        if k % 3 == 0:      # FIFO interrupts enabled: the FIFO builder then brackets its parameter writes with a temporary disable
+            calls.append(Call('config_interrupts', setters=[(rng.choice(['with_fwm_int', 'with_ffull_int']), [True])]))
         for _ in range(rng.randint(1, 7)):
             x = rng.random()
             if x < 0.4:
-                calls.append(Call('config_fifo', setters=[('with_read_disabled', [rng.random() < 0.6])] + (P.rand_setters(api, rng, api.maker['config_fifo'], 1) if rng.random() < 0.4 else []),
+                extra = P.rand_setters(api, rng, api.maker['config_fifo'], 1) if rng.random() < 0.4 else []
+                if rng.random() < 0.3:
+                    extra.append(('with_watermark_thresh', [rng.randint(1, 1024)]))
+                rng.shuffle(extra)
+                calls.append(Call('config_fifo', setters=[('with_read_disabled', [rng.random() < 0.6])] + [e for e in extra if e[0] != 'with_read_disabled'],
                                   faults=[rng.randint(0, 3)] if rng.random() < 0.25 else []))
             elif x < 0.75:
                 calls.append(Call('read_fifo_frames', [rng.choice([0, 1, 2, 15, 16, 64, 255, 256, 1024, rng.randint(0, 1024)])]))
@@ -1286,6 +1292,11 @@ def check_fifo_guard(prog, recs):
                     return 'device register 0x29 = 0x%02X (read circuit on) but %r returned %s' % (before[0x29], r.call, r.result_str())
                 if ev != [('r', 0x14, r.call.args[0])]:
                     return '%r issued %r, expected one burst of that length from 0x14' % (r.call, ev)
+        if r.call.op == 'config_fifo' and r.ok() and r.regs is not None:
+            # "the most recent successfully applied FIFO configuration": an accepted request for the power flag is on the device
+            want = [a[0] for (m, a) in (r.call.setters or []) if m == 'with_read_disabled']
+            if want and (r.regs[0x29] & 1) != int(bool(want[-1])):
+                return '%r returned Ok but device register 0x29 = 0x%02X: the requested read-circuit setting was not applied' % (r.call, r.regs[0x29])
         msg = expected_reads(prog, r) if r.ok() else None
         if msg:
             return msg
@@ -1302,9 +1313,9 @@ def mon_c19(api, rng, budget, variants):
 
 
 PROPS['C19'] = {
-    'targets': ['props/C19.vo'],
+    'targets': ['props/C19.vo', 'spec/BuilderThm_FifoConfigBuilder.vo'],
     'theorems': [('props.C19', n) for n in ['c19_guard_is_bit0', 'c19_refused_iff_device_flag', 'c19_commands', 'c19_reset_reenables']]
-                + [('props.C16', 'c16_every_history')],
+                + [('props.C16', 'c16_every_history'), ('spec.BuilderThm_FifoConfigBuilder', 'builder_FifoConfigBuilder')],
     'corr_gen': lambda api, rng, n: fifo_power_programs(api, rng, n),
     'corr_n': (300, 4000), 'monitor': mon_c19, 'monitor_n': (600, 20000), 'judge': check_fifo_guard,
     'statement': 'read_fifo_frames is, by conversion, a guard on bit 0 of the shadow FIFO_PWR_CONFIG followed by ONE burst read of exactly the buffer '
